@@ -177,3 +177,148 @@ func vh_C06_L3_fragmented_partly_in_flight() {
 	vobserve("onWire", uint64(onWire))
 	vcover("end")
 }
+
+// C06.L3c: three fragments, all in flight, the middle one lost: with limit N the message is
+// abandoned as a whole, no fragment is put on the wire more than N+1 times.
+func vh_C06_L3_three_fragments_all_in_flight() {
+	il := vPick(2) == 1
+	a, b := vPair(vAssocOpts{interleaving: il, pickTSN: true, mtu: 36})
+	a.useForwardTSN, a.useIForwardTSN = !il, il
+	b.useForwardTSN, b.useIForwardTSN = !il, il
+	s, err := a.OpenStream(1, PayloadTypeWebRTCBinary)
+	vassert(err == nil, "open stream")
+	limit := uint32(vPick(2))
+	s.SetReliabilityParams(vPick(2) == 1, ReliabilityTypeRexmit, limit)
+	maxp := int(a.maxPayloadSize)
+	_, werr := s.WriteSCTP(make([]byte, 2*maxp+1), PayloadTypeWebRTCBinary)
+	vassert(werr == nil, "write accepted")
+	first := a.myNextTSN
+	var onWire [3]int
+	lose := 1 + vPick(2) // the middle or the last fragment is always lost, the others arrive
+	for round := 0; round < 6; round++ {
+		for _, raw := range vWriterWake(a) {
+			p := vDecode(raw)
+			deliver := true
+			for _, c := range p.chunks {
+				if d, ok := c.(*chunkPayloadData); ok && d.tsn-first < 3 {
+					onWire[d.tsn-first]++
+					if int(d.tsn-first) == lose {
+						deliver = false
+					}
+				}
+			}
+			if deliver {
+				vInbound(b, raw)
+			}
+		}
+		vFireAck(b)
+		for _, raw := range vWriterWake(b) {
+			vInbound(a, raw)
+		}
+		vFireRtx(a, a.t3RTX)
+	}
+	for i := 0; i < 3; i++ {
+		vassert(onWire[i] >= 1 && onWire[i] <= int(limit)+1, "no fragment is put on the wire more than N+1 times")
+	}
+	vassert(a.inflightQueue.size() == 0, "the abandoned message is skipped as a whole")
+	vcover("end")
+}
+
+// C06.L5: DCEP messages are ordered and reliable even on an unordered stream: two DCEP
+// messages interleaved with unordered data are both delivered, in writing order.
+func vh_C06_L5_dcep_ordered_on_unordered_stream() {
+	il := vPick(2) == 1
+	a, b := vPair(vAssocOpts{interleaving: il, pickTSN: true})
+	s, err := a.OpenStream(1, PayloadTypeWebRTCBinary)
+	vassert(err == nil, "open stream")
+	s.SetReliabilityParams(true, ReliabilityTypeRexmit, 0)
+	d1, d2 := nondetBytes(1), nondetBytes(1)
+	_, _ = s.WriteSCTP(d1, PayloadTypeWebRTCDCEP)
+	_, _ = s.WriteSCTP(nondetBytes(1), PayloadTypeWebRTCBinary)
+	net := &vNet{a: a, b: b, dropAt: -1, dupAt: -1}
+	net.settle(8, 1)
+	bs := b.streams[1]
+	vassert(bs != nil, "receiver has the stream")
+	if bs == nil {
+		return
+	}
+	got, ppis := vReadAll(bs, make([]byte, 8)) // the reader consumes what has arrived
+	_, _ = s.WriteSCTP(d2, PayloadTypeWebRTCDCEP)
+	net.settle(8, 1)
+	got2, ppis2 := vReadAll(bs, make([]byte, 8))
+	got, ppis = append(got, got2...), append(ppis, ppis2...)
+	var dcep [][]byte
+	for i := range got {
+		if ppis[i] == PayloadTypeWebRTCDCEP {
+			dcep = append(dcep, got[i])
+		}
+	}
+	vassert(len(dcep) == 2, "both DCEP messages are delivered")
+	if len(dcep) == 2 {
+		vassert(dcep[0][0] == d1[0] && dcep[1][0] == d2[0], "in writing order, intact")
+	}
+	vcover("end")
+}
+
+// C06.L6: a skip must not destroy a live unordered message. Stream 1 (unordered, rexmit 0)
+// sends a message that is lost; stream 2 (unordered, reliable) sends a two-fragment message
+// whose second fragment is lost once. Any subset of the three data packets may be lost on
+// first transmission; the reliable message is always delivered intact.
+func vh_C06_L6_skip_keeps_live_unordered_message() {
+	a, b := vPair(vAssocOpts{pickTSN: true, mtu: 36})
+	a.useForwardTSN, b.useForwardTSN = true, true
+	s1, _ := a.OpenStream(1, PayloadTypeWebRTCBinary)
+	s2, _ := a.OpenStream(2, PayloadTypeWebRTCBinary)
+	s1.SetReliabilityParams(true, ReliabilityTypeRexmit, 0)
+	s2.SetReliabilityParams(true, ReliabilityTypeReliable, 0)
+	_, _ = s1.WriteSCTP(nondetBytes(1), PayloadTypeWebRTCBinary)
+	maxp := int(a.maxPayloadSize)
+	m := make([]byte, maxp+1)
+	m[0], m[maxp] = nondetU8(), nondetU8()
+	_, _ = s2.WriteSCTP(m, PayloadTypeWebRTCString)
+	mask := vPick(8) // which of the first three data packets are lost on their first transmission
+	idx := 0
+	for round := 0; round < 10; round++ {
+		c := 0
+		for _, raw := range vWriterWake(a) {
+			p := vDecode(raw)
+			isData := false
+			for _, ch := range p.chunks {
+				if _, ok := ch.(*chunkPayloadData); ok {
+					isData = true
+				}
+			}
+			drop := false
+			if isData {
+				if idx < 3 && mask&(1<<uint(idx)) != 0 {
+					drop = true
+				}
+				idx++
+			}
+			if !drop {
+				vInbound(b, raw)
+			}
+			c++
+		}
+		vFireAck(b)
+		for _, raw := range vWriterWake(b) {
+			vInbound(a, raw)
+			c++
+		}
+		vFireAck(a)
+		if c == 0 {
+			if a.inflightQueue.size() == 0 {
+				break
+			}
+			vFireAll(a)
+		}
+	}
+	bs := b.streams[2]
+	vassert(bs != nil, "receiver has the reliable stream")
+	if bs != nil {
+		got, _ := vReadAll(bs, make([]byte, 64))
+		vassert(len(got) == 1 && vBytesEq(got[0], m), "the reliable unordered message is delivered intact whatever was skipped around it")
+	}
+	vassert(a.inflightQueue.size() == 0, "sender drained")
+	vcover("end")
+}
